@@ -293,7 +293,16 @@ func (rn *runner) hypotheses(ep *epoch, rp Replay) {
 			rn.res.Mismatch(lib.Mismatch{Sig: "hyp-two-log-entries-for-one-input", Input: rp, Impl: c})
 		}
 		if !c.Replay && nW == 0 && len(c.Acts) > 0 {
-			rn.res.Mismatch(lib.Mismatch{Sig: "hyp-unlogged-input-with-actions", Input: rp, Impl: c})
+			if cfg := ep.cfg; cfg.AppMode == "store" && len(ep.app.lostValid) > 0 {
+				// consequence of the lost proposal store: validity of a replayed proposal flips back to
+				// "valid" when the build result arrives again, the rules become enabled without any
+				// input being processed, and the next input of any kind (e.g. an obsolete timeout,
+				// which is not logged) fires them
+				violate(lib.Violation{Sig: "unlogged-input-made-visible-proposal-store-not-durable",
+					What: fmt.Sprintf("input %s wrote nothing to the log but produced %v", c.In, c.Acts), Replay: rp})
+			} else {
+				rn.res.Mismatch(lib.Mismatch{Sig: "hyp-unlogged-input-with-actions", Input: rp, Impl: c})
+			}
 		}
 		if commitAt >= 0 && commitAt != len(c.Acts)-1 {
 			rn.res.Mismatch(lib.Mismatch{Sig: "hyp-commit-not-last-action", Input: rp, Impl: c})
@@ -901,6 +910,10 @@ func directed() []Replay {
 			Cfg: Cfg{Powers: eq4, Tbl: []int{1, 2, 3, 0}, PMul: 1, Me: 3, C0: 0, AppMode: "store"},
 			Script: []Input{{K: "p", H: 1, R: 0, Sender: 2, VR: -1, Val: 41}, {K: "v", H: 1, R: 0, Sender: 0, Val: 41}, {K: "v", H: 1, R: 0, Sender: 1, Val: 41},
 				{K: "c", H: 1, R: 0, Sender: 0, Val: 41}, {K: "c", H: 1, R: 0, Sender: 1, Val: 41}, {K: "v", H: 2, R: 0, Sender: 0, Val: 53}}},
+		{Note: "in-memory proposal store: polka and precommit for a value, restart, prevote timeout fires",
+			Cfg: Cfg{Powers: eq4, Tbl: []int{1, 2, 3, 0}, PMul: 1, Me: 3, C0: 0, AppMode: "store"},
+			Script: []Input{{K: "p", H: 1, R: 0, Sender: 2, VR: -1, Val: 41}, {K: "v", H: 1, R: 0, Sender: 0, Val: 41}, {K: "v", H: 1, R: 0, Sender: 1, Val: 41},
+				{K: "t", Step: 1, H: 1, R: 0}}},
 		{Note: "non-proposer, two heights on the happy path, stable value source",
 			Cfg: Cfg{Powers: eq4, Tbl: []int{1, 2, 3, 0}, PMul: 1, Me: 3, C0: 0, AppMode: "stable"},
 			Script: []Input{{K: "p", H: 1, R: 0, Sender: 2, VR: -1, Val: 41}, {K: "v", H: 1, R: 0, Sender: 0, Val: 41}, {K: "v", H: 1, R: 0, Sender: 1, Val: 41},
